@@ -13,9 +13,9 @@ import (
 func init() { registry["C19"] = checkC19 }
 
 type docSym struct {
-	Name     string `json:"name"`
-	Kind     int    `json:"kind"`
-	Range    rng    `json:"range"`
+	Name     string   `json:"name"`
+	Kind     int      `json:"kind"`
+	Range    rng      `json:"range"`
 	Children []docSym `json:"children"`
 }
 
